@@ -302,6 +302,7 @@ func (p Statements) PrettyPrint(ps *PrintState) *PrintState {
 	}
 	ps.IndentLevel++
 	ps.ExpressionPrecedence = LOWEST
+	ps.prev = nil // the last statement of a previous block isn't the predecessor of this block's first statement.
 	var i int
 	for _, s := range p.Statements {
 		if ps.Compact {
